@@ -187,10 +187,21 @@ fn do_distribute_descriptions(
             }
         }
         Expr::Alternative { children, span } => {
+            // Every branch gets its own copy of the pending description.  It stays pending for
+            // what follows the alternative only if some branch did not use it up.
+            let mut all_spent = true;
             let new_children: Vec<ExprId> = children
                 .iter()
-                .map(|e| do_distribute_descriptions(arena, *e, &mut description.clone()))
+                .map(|e| {
+                    let mut branch_description = *description;
+                    let new_child = do_distribute_descriptions(arena, *e, &mut branch_description);
+                    all_spent &= branch_description.is_none();
+                    new_child
+                })
                 .collect();
+            if all_spent {
+                *description = None;
+            }
             if children == new_children {
                 expr_id
             } else {
